@@ -6,7 +6,7 @@ import time
 import z3
 
 from pv import classes, smt, source
-from pv.contract import REG, FIELDS, THEORIES, SPECFNS, CLASS_INV, Contract
+from pv.contract import REG, FIELDS, THEORIES, SPECFNS, CLASS_INV, GHOST_ARRAYS, Contract
 from pv.core import Ob, DISCHARGED, REFUTED, UNDECIDED
 from pv.engine import Engine, MAX_PATHS
 from pv.evalx import from_py, lit_of
@@ -681,6 +681,8 @@ class Verifier(Engine):
             old = st.heap.get(n)
             if old is None:
                 old = self.init_heap.get(n)
+            if old is None and n in GHOST_ARRAYS:
+                old = st.arr(n, GHOST_ARRAYS[n])      # a ghost array not read yet: later reads must see the havocked one
             if old is None:
                 continue
             new_ = z3.Const(fresh_name('H_' + n), old.sort())
